@@ -630,7 +630,66 @@ func (ndb *nodeDB) DeleteVersionsFrom(fromVersion int64) error {
 	if err != nil {
 		return err
 	}
-	dumpFromVersion := fromVersion
+	// the versions in the new format start after the legacy ones
+	newFromVersion := fromVersion
+	if legacyLatestVersion >= fromVersion {
+		newFromVersion = legacyLatestVersion + 1
+	}
+
+	// NOTICE: we don't touch fast node indexes here, because it'll be rebuilt later because of version mismatch.
+	// The mismatch has to be made explicit, though: versions committed later
+	// without maintaining the index can reach the labelled version number
+	// again, so the label of the now stale index is dropped, before anything
+	// else so that it never outlives a version it names.
+	if ndb.hasUpgradedToFastStorage() {
+		ndb.mtx.Lock()
+		err = ndb.batch.Delete(metadataKeyFormat.Key([]byte(storageVersionKey)))
+		ndb.storageVersion = defaultStorageVersionValue
+		ndb.mtx.Unlock()
+		if err != nil {
+			return err
+		}
+	}
+
+	// Delete the nodes for new format. The keys are collected first: the batch
+	// may be flushed at any Delete, and no write may happen within the domain of
+	// an open iterator. The versions go from the newest down (a version shares
+	// nodes of earlier versions only) and within a version the root entry goes
+	// first, so that wherever the batch happens to be flushed every version that
+	// still has its root entry is complete.
+	var staleKeys [][]byte
+	if err = ndb.traverseRange(nodeKeyPrefixFormat.KeyInt64(newFromVersion), nodeKeyPrefixFormat.KeyInt64(latest+1), func(k, _ []byte) error {
+		staleKeys = append(staleKeys, ibytes.Cp(k))
+		return nil
+	}); err != nil {
+		return err
+	}
+	prefixLen := nodeKeyPrefixFormat.Length()
+	for end := len(staleKeys); end > 0; {
+		start := end - 1
+		for start > 0 && bytes.Equal(staleKeys[start-1][:prefixLen], staleKeys[end-1][:prefixLen]) {
+			start--
+		}
+		var version int64
+		nodeKeyPrefixFormat.Scan(staleKeys[start][:prefixLen], &version)
+		rootKey := nodeKeyFormat.Key(GetRootKey(version))
+		group := staleKeys[start:end]
+		for i, k := range group {
+			if bytes.Equal(k, rootKey) {
+				group[0], group[i] = group[i], group[0]
+				break
+			}
+		}
+		for _, k := range group {
+			if err = ndb.batch.Delete(k); err != nil {
+				return err
+			}
+		}
+		end = start
+	}
+
+	// Delete the legacy versions, after the versions in the new format: those
+	// are newer and share the legacy nodes.
 	if legacyLatestVersion >= fromVersion {
 		// The roots are collected first (no write may happen within the domain of
 		// an open iterator) and processed from the newest version down: the nodes
@@ -668,62 +727,9 @@ func (ndb *nodeDB) DeleteVersionsFrom(fromVersion int64) error {
 		}
 		// Update the legacy latest version forcibly
 		ndb.legacyLatestVersion = 0
-		fromVersion = legacyLatestVersion + 1
 	}
 
-	// NOTICE: we don't touch fast node indexes here, because it'll be rebuilt later because of version mismatch.
-	// The mismatch has to be made explicit, though: versions committed later
-	// without maintaining the index can reach the labelled version number
-	// again, so the label of the now stale index is dropped, before anything
-	// else so that it never outlives a version it names.
-	if ndb.hasUpgradedToFastStorage() {
-		ndb.mtx.Lock()
-		err = ndb.batch.Delete(metadataKeyFormat.Key([]byte(storageVersionKey)))
-		ndb.storageVersion = defaultStorageVersionValue
-		ndb.mtx.Unlock()
-		if err != nil {
-			return err
-		}
-	}
-
-	// Delete the nodes for new format. The keys are collected first: the batch
-	// may be flushed at any Delete, and no write may happen within the domain of
-	// an open iterator. The versions go from the newest down (a version shares
-	// nodes of earlier versions only) and within a version the root entry goes
-	// first, so that wherever the batch happens to be flushed every version that
-	// still has its root entry is complete.
-	var staleKeys [][]byte
-	if err = ndb.traverseRange(nodeKeyPrefixFormat.KeyInt64(fromVersion), nodeKeyPrefixFormat.KeyInt64(latest+1), func(k, _ []byte) error {
-		staleKeys = append(staleKeys, ibytes.Cp(k))
-		return nil
-	}); err != nil {
-		return err
-	}
-	prefixLen := nodeKeyPrefixFormat.Length()
-	for end := len(staleKeys); end > 0; {
-		start := end - 1
-		for start > 0 && bytes.Equal(staleKeys[start-1][:prefixLen], staleKeys[end-1][:prefixLen]) {
-			start--
-		}
-		var version int64
-		nodeKeyPrefixFormat.Scan(staleKeys[start][:prefixLen], &version)
-		rootKey := nodeKeyFormat.Key(GetRootKey(version))
-		group := staleKeys[start:end]
-		for i, k := range group {
-			if bytes.Equal(k, rootKey) {
-				group[0], group[i] = group[i], group[0]
-				break
-			}
-		}
-		for _, k := range group {
-			if err = ndb.batch.Delete(k); err != nil {
-				return err
-			}
-		}
-		end = start
-	}
-
-	ndb.resetLatestVersion(dumpFromVersion - 1)
+	ndb.resetLatestVersion(fromVersion - 1)
 
 	return nil
 }
